@@ -294,6 +294,13 @@ Definition sstep (st : option sstate * option sstate) (o : op * bool)
       | OUint | OMeta => (st, SoOpen)
       (* a text iterator offers its conversion to 's' (format list), with or without target *)
       | OMetaS => (st, match c with CStr _ _ _ => SoK true | _ => SoNone end)
+      (* a source re-created from its own description: only a value list (cursor over an explicit list) hands a
+         description out; the new source stands at the start of the same denoted sequence *)
+      | ORedesc => match c with
+                   | CList _ _ _ => ((fst st, Some (s_reset c)), SoK true)
+                   | CIdx _ _ => (st, SoA ARefused)
+                   | CStr _ _ _ => (st, SoNone)
+                   end
       end
   end.
 Fixpoint srun (st : option sstate * option sstate) (ops : list (op * bool)) : list sout :=
